@@ -100,7 +100,7 @@ def logical_input(rng):
         cut = m['multi_string'].index('}.{')
         c = dict(kind='multilevel', base_string=m['multi_string'][:cut + 1], frag_string=m['multi_string'][cut + 2:], features=m['features'])
     else:
-        a = ambig.random_case(rng, coarse=False, prefer=('WT', 'WH', 'WG', 'HT', 'NA', 'HB', 'HB2', 'LAB', 'EN2', 'LAB') if rng.random() < 0.5 else ())
+        a = ambig.random_case(rng, coarse=False, prefer=('WT', 'WH', 'WG', 'HT', 'NA', 'HB', 'HB2', 'LAB', 'EN2', 'LAB', 'SUR', 'MIX', 'SUR') if rng.random() < 0.5 else ())
         if a is None:
             return None
         cut = a['string'].index('}.{')
